@@ -295,7 +295,33 @@ def main(argv):
             runner(prop, cfg, tier, seed, wdir, mpv, cov, violations, broken, notes)
         except subprocess.TimeoutExpired as e:
             broken.append({'what': 'run timed out: %s' % e})
+    # 5. a proof obligation or the correspondence broke and the oracles of the run found nothing: the property's own
+    #    search for a failing input (when it has one) runs before the violation is reported without a replay
+    if broken and not violations and cfg.get('search'):
+        try:
+            cfg['search'](prop, tier, wdir, mpv, violations, notes)
+        except Exception as e:  # the search is best effort
+            notes.append('failing-input search failed: %s' % e)
     return finish(prop, tier, seed, cfg, t0, cov, violations, broken, notes, known)
+
+
+def cache_collision_search(prop, tier, wdir, mpv, violations, notes):
+    """C16: two texts the caches take for one another (a key shorter than the text: a hash, a prefix, a length)"""
+    out = os.path.join(wdir, 'collide')
+    nq, ns = (250000, 20000) if tier == 'quick' else (600000, 40000)
+    p = subprocess.run([mpv, 'collide', out, str(nq), str(ns)], stdout=subprocess.PIPE, stderr=subprocess.PIPE, text=True, timeout=1800,
+                       env=dict(go_env(), GOMEMLIMIT='6GiB'))
+    rep = os.path.join(out, 'collide.json')
+    if not os.path.exists(rep):
+        notes.append('cache collision search did not finish (rc=%s)' % p.returncode)
+        return
+    r = json.load(open(rep))
+    notes.append('cache collision search: %d query texts and %d schema texts in one process, %d confused' % (r['queries'], r['schemas'], len(r.get('hits') or [])))
+    for h in (r.get('hits') or [])[:2]:
+        violations.append({'kind': 'history', 'key': 'cache-confusion:' + h['Kind'], 'query': h['Text'] if h['Kind'] == 'query' else 'query ' + h['Text'],
+                           'why': 'after %d other texts were validated in this process, this %s text gets the answer that belongs to another text' % (h['Index'], h['Kind']),
+                           'expected': h['Want'][:400], 'got': h['Got'][:400], 'extra': {'schema': h['Schema'], 'history': r['history'], 'index': h['Index'],
+                                                                                             'replay': 'mpv collide <dir> %d %d' % (r['queries'], r['schemas'])}})
 
 
 def regenerate_facts(mpv):
